@@ -295,6 +295,8 @@ def gen_spec(rng, size=None):
         flat = [(si, i) for si, seg in enumerate(segments) for i in range(len(seg["rain"])) if seg["rain"][i] == 0.0]
         for si, i in rng.sample(flat, min(len(flat), rng.randint(1, 4))):
             segments[si]["rain"][i] = rng.choice([-9999.0, -0.1, -1.0])
+    if rng.random() < 0.1:
+        spec["unpadded_stamps"] = True
     # rows need not be in time order (two logger downloads concatenated newest first, back-filled
     # rows appended at the end, ...): load accepts any row order
     if rng.random() < 0.25:
@@ -355,6 +357,18 @@ def render(spec):
             value = _r3(zeta[i] + (zeta[i + 1] - zeta[i]) * j / float(k))
         when = (t0 + datetime.timedelta(seconds=f * (dt // k))).strftime(fmt)
         z_lines.append("%s,%r" % (when, value))
+    if spec.get("unpadded_stamps"):
+        # '2013-3-1 0:00:00' instead of '2013-03-01 00:00:00' in the water-level file (strptime reads both)
+        def unpad(line):
+            stamp, _, rest = line.partition(",")
+            try:
+                d, t = stamp.split(" ")
+                y, m, dd = d.split("-")
+                hh, mm, ss = t.split(":")
+                return "%s-%d-%d %d:%s:%s,%s" % (y, int(m), int(dd), int(hh), mm, ss, rest)
+            except ValueError:
+                return line
+        z_lines = [z_lines[0]] + [unpad(l) for l in z_lines[1:]]
     order = spec.get("row_order")
     if order:
         import random as _random  # pylint: disable=import-outside-toplevel
@@ -427,6 +441,53 @@ def spec_stretch_sizes(spec):
         if owned:
             sizes.append(sum(1 for i in owned if i <= last_i))
     return sizes
+
+
+def spec_stretch_ranges(spec):
+    """(first, last) rain-grid index owned by each gap-free stretch of the SOURCE
+    record that owns at least one sample with rainfall (see spec_stretch_sizes)."""
+    rain, _ = spec_arrays(spec)
+    n = len(rain)
+    k = spec.get("wl_per_step", 1)
+    kept = kept_samples(spec)
+    if len(kept) < 2:
+        return []
+    stretches = [[kept[0], kept[0]]]
+    for f in kept[1:]:
+        if f == stretches[-1][1] + 1:
+            stretches[-1][1] = f
+        else:
+            stretches.append([f, f])
+    first_i = max(0, -(-kept[0] // k))
+    last_i = min(kept[-1] // k, n - 1)
+    grid = list(range(first_i, last_i + 1)) + [last_i + 1]
+    out = []
+    for idx, (fa, fb) in enumerate(stretches):
+        lo_t = grid[0] * k if idx == 0 else fa
+        hi_t = grid[-1] * k if idx == len(stretches) - 1 else fb
+        owned = [i for i in grid if lo_t <= i * k <= hi_t and i <= last_i]
+        if owned:
+            out.append((owned[0], owned[-1]))
+    return out
+
+
+def spec_storm_at_stretch_end(spec, s_thr, j_thr):
+    """True iff, in the SOURCE record, some gap-free stretch ends in a storm
+    (rain > s_thr on its last sample) that shares a step with a rise
+    (increment > j_thr * dt_h): the open known finding about a matched storm
+    that reaches the end of a stretch, as a property of the input files."""
+    rain, zeta = spec_arrays(spec)
+    jump = j_thr * (float(spec["dt"]) / 3600.0)
+    for i0, i1 in spec_stretch_ranges(spec):
+        if not rain[i1] > s_thr:
+            continue
+        a = i1
+        while a > i0 and rain[a - 1] > s_thr:
+            a -= 1
+        for i in range(a, i1):                 # increments i -> i+1 inside the stretch
+            if zeta[i + 1] - zeta[i] > jump:
+                return True
+    return False
 
 
 def spec_degenerate_classes(spec):
